@@ -413,7 +413,7 @@ pub fn run(tier: Tier) -> i32 {
         Err(e) => rep.assumptions.push(format!("python3 cross-validation skipped: {}", e)),
     }
     rep.guard("non-empty selections occur", st.nontrivial > 100);
-    rep.rule = "all (array length, start, stop, step) triples over the window +-(n+2) plus the i32 extremes, each omission pattern, through the string interface and Variable::slice; all indexes over the same value set; non-array subjects. Oracle: Python slice.indices rule in i128 arithmetic (cross-validated against python3). non-trivial = the rule selects at least one element".into();
+    rep.rule = "all (array length, start, stop, step) triples over the window +-(n+2) plus the i32 extremes, each omission pattern, through the string interface and Variable::slice; all indexes over the same value set; non-array subjects. Oracle: Python slice.indices rule in i128 arithmetic (cross-validated against python3). non-trivial = the rule selects at least one element The bare slice node (hand-built Ast::Slice through Expression::new, alone and as the left operand of ||) over 14 subjects x 14 x 14 x 9 (start, stop, step): arrays keep nulls, non-arrays give null, step 0 is an error.".into();
     rep.bounds = json!({"max_array_len": nmax, "wide_extremes": wide});
     rep.stats = st;
     rep.finish()
